@@ -15,6 +15,7 @@ import types
 
 from .. import tlc
 from ..core import Check, MachineryError
+from .. import looptrace
 
 SRC = '''
 from typing import List, Dict, Tuple, Optional, Union
@@ -176,6 +177,7 @@ def main():
     module(0)
     records, n = [], 0
     blown = set()
+    ctx_recs = []
 
     def add(kind, clsname, posname, data, tree, d, leafkind, budget=10 ** 7):
         nonlocal n
@@ -184,6 +186,12 @@ def main():
         if kind == "cost" and (clsname, leafkind) in blown:
             return          # this series already exceeded the bound at a smaller depth
         ok, work, exc = run(getattr(module(d), clsname), data, d, min(budget, bound(size, min(depth, 40)) + 1))
+        if kind.startswith("exact") and depth <= 6 and len(ctx_recs) < 400:
+            # the same parse once more under the context tracer: every RuntimeContext created, with its parent, route and depth
+            COUNTER.calls, COUNTER.budget = 0, 10 ** 7
+            ctx = looptrace.observe_contexts(lambda: getattr(module(d), clsname).__from__(data))
+            if ctx:
+                ctx_recs.append({"id": "c18-%d" % n, "ctx": ctx})
         if kind == "cost" and (exc == "BUDGET" or work > bound(size, depth)):
             blown.add((clsname, leafkind))
         records.append({"id": "c18-%d" % n, "kind": kind, "cls": clsname, "pos": posname, "tree": tree, "d": d, "ok": ok, "work": work,
@@ -244,6 +252,15 @@ def main():
                 for leaf in ("ok", "bad"):
                     data, tree = chain(clsname, pos, depth, leaf=leaf)
                     add("cost", clsname, pos[0], data, tree, 0, leaf)
+    cres = tlc.judge("Trace_DepthSteps", "Trace_DepthSteps.cfg", ctx_recs, workers=4)
+    nctx = sum(len(x["ctx"]) for x in ctx_recs)
+    if cres.distinct != nctx or not ctx_recs:
+        raise MachineryError("trace acceptance (context steps): TLC visited %d states, expected %d" % (cres.distinct, nctx))
+    ck.mc(cres, "Trace context steps")
+    ck.count("context_creations_validated_against_Depth_CtxDepth", nctx)
+    if cres.tagged("DIV"):
+        ck.count("context_step_divergences", len(cres.tagged("DIV")))
+        ck.note("divergence: a context's depth is not one Depth!CtxDepth step from its parent's: %s" % cres.tagged("DIV")[:3])
     byid = {x["id"]: x for x in records}
     r = tlc.judge("Trace_Depth", "Trace_Depth.cfg", records, workers=8)
     ck.mc(r, "Trace")
